@@ -228,10 +228,19 @@ fn enc_load() {
     let r = catch_unwind(AssertUnwindSafe(|| -> Option<String> {
         let (mut s, _plain) = stream_with_remaining(ccn, rem.min(2 * cts()), auth);
         if !auth && rem >= 1 {
-            // altered chunk: flip one bit inside it
-            let at = (ccn * cts()) as usize;
-            if at < s.len() {
-                s[at] ^= 0x80;
+            // altered chunk: the stored TAG differs from the genuine one exactly where the solver
+            // chose (a reader comparing only part of the tag accepts it); when the chunk has no
+            // complete tag, flip a ciphertext bit instead
+            let chunk_end = ((ccn * cts()) + rem.min(cts())) as usize;
+            let tag_at = v_u64("tag_at", 0).min(15) as usize;
+            let bits = (v_u64("tag_bits", 1) as u8).max(1);
+            if rem.min(cts()) >= 16 && chunk_end <= s.len() {
+                s[chunk_end - 16 + tag_at] ^= bits;
+            } else {
+                let at = (ccn * cts()) as usize;
+                if at < s.len() {
+                    s[at] ^= 0x80;
+                }
             }
         }
         let total = s.len() as u64;
